@@ -224,6 +224,7 @@ MUTANTS = [
     ('split-quote-after-ws-stays-ws', 'utils', "            elif c == r\"'\":\n                # Handle single quote\n                state = state_singlequote", "            elif c == r\"'\" and state == state_basic:\n                # Handle single quote\n                state = state_singlequote", 'D1'),
     ('split-no-final-push', 'utils', "    if arg != '':\n        arg_list.append(arg)\n    return arg_list", "    return arg_list", 'D1'),
     ('split-push-no-reset', 'utils', "                    arg_list.append(arg)\n                    arg = ''\n                    state = state_whitespace", "                    arg_list.append(arg)\n                    state = state_whitespace", 'D1'),
+    ('split-strips-first', 'utils', "    for c in command_line:\n", "    for c in command_line.strip():\n", 'D1'),
     ('which-environ-always', 'utils', "    if env is None:\n        env = os.environ\n    p = env.get('PATH')", "    p = os.environ.get('PATH')", 'D2'),
     ('which-last-match', 'utils', "        if is_executable_file(ff):\n            return ff\n    return None", "        if is_executable_file(ff):\n            found = ff\n    return found if pathlist else None", 'D2'),
     ('which-sorted-path', 'utils', "    pathlist = p.split(os.pathsep)", "    pathlist = sorted(p.split(os.pathsep))", 'D2'),
@@ -236,6 +237,7 @@ MUTANTS = [
     ('init-env-late', 'pty_spawn', "        self.cwd = cwd\n        self.env = env\n", "        self.cwd = cwd\n        self.env = None\n", 'D3'),
 ]
 PRESERVING = [
+    ('split-lstrip-first', 'utils', "    for c in command_line:\n", "    for c in command_line.lstrip():\n"),
     ('split-final-push-state', 'utils', "    if arg != '':\n        arg_list.append(arg)\n    return arg_list", "    if arg != '' and state == state_basic:\n        arg_list.append(arg)\n    return arg_list"),
     ('split-augassign', 'utils', "        elif state == state_esc:\n            arg = arg + c\n            state = state_basic", "        elif state == state_esc:\n            arg += c\n            state = state_basic"),
     ('split-none-to-pass', 'utils', "                    # Do nothing.\n                    None", "                    # Do nothing.\n                    pass"),
